@@ -22,6 +22,8 @@ type norouteIn struct {
 	Path   string `json:"path"`
 	Host   string `json:"host"`
 	Match  bool   `json:"match"` // control: send a request the route does match
+	// pages set before this one (noroute.SetHTML, in order): what is served is the last one set, whatever came before
+	Prev []string `json:"prev"`
 }
 
 type norouteOut struct {
@@ -64,8 +66,14 @@ func runNoroute(raw json.RawMessage) (interface{}, error) {
 	if err := e.install(config.Proxy{NoRouteStatus: in.Status}, routes, nil); err != nil {
 		return nil, err
 	}
+	for _, pv := range in.Prev {
+		b, err := fromL1(pv)
+		if err != nil || len(b) > 4096 {
+			return nil, errors.New("page not representable")
+		}
+		noroute.SetHTML(string(b))
+	}
 	noroute.SetHTML(string(page))
-	defer noroute.SetHTML("")
 	host, path := in.Host, string(p)
 	if in.Match {
 		host, path = "routed.example", "/routed"+path
@@ -98,6 +106,9 @@ func init() {
 			norouteIn{Status: 304, Method: "GET", Path: "/", Host: "example.com", HTML: "page"},
 			norouteIn{Status: 503, Method: "HEAD", Path: "/", Host: "example.com", HTML: "page"},
 			norouteIn{Status: 503, Method: "GET", Path: "/x", Host: "example.com", HTML: "page", Match: true},
+			// the operator removes the page: the empty page replaces the old one
+			norouteIn{Status: 404, Method: "GET", Path: "/", Host: "example.com", HTML: "", Prev: []string{"<h1>old</h1>"}},
+			norouteIn{Status: 404, Method: "GET", Path: "/", Host: "example.com", HTML: "new", Prev: []string{"old", "", "old"}},
 		},
 		Gen: func(r *hx.Rand, i int) interface{} {
 			in := norouteIn{
@@ -106,6 +117,10 @@ func init() {
 				Host:   r.Pick([]string{"example.com", "other.example", "routed.example:81", "x"}),
 				HTML:   r.Pick(pages),
 				Match:  r.Chance(1, 10),
+				Prev:   []string{},
+			}
+			for k := r.Intn(3); k > 0; k-- {
+				in.Prev = append(in.Prev, r.Pick(pages))
 			}
 			switch r.Intn(10) {
 			case 0:
